@@ -217,3 +217,5 @@ m("C16-revert-D20-sort-in-place", "C16", "data_model/solution_tracks.py",
   "        candidates = annotator.tracklet_id_to_nodes[track_id]\n        candidates.sort(key=lambda n: self.get_time(n))")
 m("C11-revert-D22-no-restore-in-update-attrs", "C11", "actions/update_node_attrs.py",
   "            for attr, value in self.prev_attrs.items():\n                self._set(attr, value)\n            raise", "            raise")
+m("C14-load-memory-maps-the-saved-segmentation", "C14", "import_export/internal_format.py",
+  "        return np.load(seg_file)", "        return np.load(seg_file, mmap_mode=\"r+\")")
